@@ -175,7 +175,7 @@ class _SyncCache[**Args, Result]:
         **kwargs: Args.kwargs,
     ) -> Result:
         key: Hashable = _make_key(
-            args=(ref(__method_self), *args),
+            args=(id(__method_self), ref(__method_self), *args),
             kwds=kwargs,
             typed=True,
         )
@@ -293,7 +293,7 @@ class _AsyncCache[**Args, Result]:
     ) -> Result:
         loop: AbstractEventLoop = get_running_loop()
         key: Hashable = _make_key(
-            args=(ref(__method_self), *args),
+            args=(id(__method_self), ref(__method_self), *args),
             kwds=kwargs,
             typed=True,
         )
